@@ -282,9 +282,15 @@ def detector_cases(draw, tier, det):
     n = draw(st.integers(n_min, max(n_min, nmax)))
     bw = params.get("bandwidth", params.get("min_segment_length", 1))
     case = {"detector": det, "params": params, "t": draw(transformation(p, {rel})),
-            "one_detector": draw(st.sampled_from([False, True]))}
+            "one_detector": draw(st.sampled_from([False, True])),
+            # a dead channel: one column exactly constant over the whole series (0.0, 1.0, 20.0: exactly summable values)
+            "dead_channel": {"col": draw(st.integers(0, p - 1)), "value": draw(st.sampled_from([0.0, 1.0, 20.0]))}
+            if p >= 2 and "Gaussian" not in str(params) and draw(st.integers(0, 4)) == 0 else None}
     # bulk data last (strategies/data.py)
     case["X"], _ = draw(D.structured_matrix(n, p, exact=False, min_noise_scale=1e-2, boundary_positions=(bw, n - bw)))
+    if case["dead_channel"]:
+        for row in case["X"]:
+            row[case["dead_channel"]["col"]] = case["dead_channel"]["value"]
     return case
 
 
